@@ -1,0 +1,12 @@
+//go:build verif
+
+// Contracts for package peer, checked by /verif (bfvc). Comment-only.
+package peer
+
+//@ ifacegetters GetPeer
+
+//@ func (*getPeer).IsEquivalent
+//@   ensures ret ==> samegetters(d, other, GetPeer)
+
+//@ func (ID).String
+//@   ensures ret == b58enc(id)
